@@ -116,6 +116,13 @@ pub fn check(x: &Execution, w: &BTreeMap<String, Vec<Val>>) -> Vec<(String, Stri
         if let Res::Panic(p) = &r.outcome.res {
             bad.push(("panic".into(), format!("t{} {} panicked: {}", r.tid, r.op.label(), p)));
         }
+        // a handle that was returned and then cannot be read (EBADF: its descriptor was closed, or recycled, under the
+        // reader) does not "read back, to the end, one value written for the key" either
+        if let (POp::Api(op), Res::Err(_, Some(errno), msg)) = (&r.op, &r.outcome.res) {
+            if *errno == libc::EBADF && msg.starts_with("reading returned handle") {
+                bad.push(("handle-unreadable".into(), format!("t{} {}: the handle that was returned could not be read: {}", r.tid, op.label(), msg)));
+            }
+        }
     }
     for m in &x.invariant {
         bad.push(("published-corrupt".into(), m.clone()));
@@ -206,7 +213,16 @@ fn progs_for(front: &str, tier: Tier) -> Vec<(Program, Mode)> {
     // handle it falls back on reads as the whole value
     add("ensure|deleter-big", cfg(roomy), vec![], vec![vec![api(Op::Ensure(k.clone(), Pop::Value(v(0, 0, big))))], vec![POp::Unlink(home.clone())]], false, false, b2);
     add("accept-miss|deleter", cfg(roomy), vec![], vec![vec![api(Op::Gou(k.clone(), crate::ops::Act::Accept, Pop::Value(v(0, 0, Size::Five))))], vec![POp::Unlink(home.clone())]], false, false, b2);
-    let _ = homej;
+    // a close interrupted by a signal (Linux: the descriptor is released, EINTR is reported) inside a filler, while a
+    // reader of another key opens, reads and closes files in the same process: descriptor numbers are recycled at
+    // once, so whatever the filler does about the failed close must not touch what the reader opened.  The n-th
+    // close of participant 0 fails that way, for every n it has.
+    for n in 0..3u32 {
+        let pre = vec![planted(&homej, Val::new(22, Size::Five), false, 5)];
+        let bound = if tier == Tier::Thorough { Mode::Bounded(3) } else { b2 };
+        add(&format!("ensure-closefault{}|get-j", n), cfg(roomy), pre.clone(), vec![vec![api(Op::Ensure(k.clone(), Pop::Value(v(0, 0, big))))], vec![api(Op::Get(j.clone()))]], true, false, bound);
+        add(&format!("settemp-closefault{}|get-j", n), cfg(roomy), pre, vec![vec![api(Op::SetTemp(k.clone(), v(0, 0, Size::Five)))], vec![api(Op::Get(j.clone()))]], true, false, bound);
+    }
     if front == "stack" {
         // promotion after the judge (and, with a checker, the comparison) consumed the read-only hit: what ends up
         // under the key in the write cache must still be the whole value
@@ -497,7 +513,7 @@ pub fn run(tier: Tier, shard: Shard, rep: &mut Report) {
         eviction out of play and with maintenance firing on every write (capacity 1-2), own handles and a shared handle, on plain, \
         sharded and stacked (a read-only level already holds the key, so promotion races with writers) front-ends; every interleaving at \
         filesystem-call granularity with <= 2 preemptions (thorough: more programs, bound 3 and unbounded sleep-set search for the \
-        classic pairs). Oracle: bytes read from every returned handle are exactly one value written for that key; after every rename, \
+        classic pairs); ensure and set_temp_file with their n-th close (n = 0, 1, 2) interrupted by a signal - the descriptor is released and EINTR reported - next to a reader of another key sharing the process (descriptor numbers are recycled at once). Oracle: bytes read from every returned handle are exactly one value written for that key; after every rename, \
         link, write, copy or truncate event every key-named file visible in a cache directory holds a complete value for its name; \
         same at the end. The same state invariant is also evaluated after every call of every write scenario of the C02 table with \
         each single I/O fault injected, close losing the unflushed tail included, with handles built with auto-sync and, for the \
@@ -515,7 +531,8 @@ pub fn run(tier: Tier, shard: Shard, rep: &mut Report) {
     let ws: Vec<Arc<BTreeMap<String, Vec<Val>>>> = progs.iter().map(|p| Arc::new(allowed(&p.0))).collect();
     let cap = if tier == Tier::Quick { 300_000 } else { 30_000_000 };
     let ws2 = ws.clone();
-    let mk = move |pi: usize| RunOpts { invariant: Some(invariant(ws2[pi].clone())), ..Default::default() };
+    let faults: Vec<Option<crate::sched::SchedFault>> = progs.iter().map(|p| crate::sched::SchedFault::from_program_name(&p.0.name)).collect();
+    let mk = move |pi: usize| RunOpts { invariant: Some(invariant(ws2[pi].clone())), fault: faults[pi], ..Default::default() };
     let mut chk = |pi: usize, x: &Execution| check(x, &ws[pi]);
     e1::explore_all("C01", &progs, shard, rep, &mk, &mut chk, cap);
     crate::run::reset_env();
@@ -541,7 +558,8 @@ pub fn replay(case: &Value, rep: &mut Report) {
         None => Arc::new(BTreeMap::new()),
     };
     let w2 = w.clone();
-    let mk = move || RunOpts { invariant: Some(invariant(w2.clone())), ..Default::default() };
+    let fault = crate::sched::SchedFault::from_program_name(name);
+    let mk = move || RunOpts { invariant: Some(invariant(w2.clone())), fault, ..Default::default() };
     let mut chk = |x: &Execution| check(x, &w);
     e1::replay_case("C01", &progs, case, rep, &mk, &mut chk);
 }
